@@ -386,7 +386,8 @@ def write_bytecode_file(
     if isinstance(code_obj, types.CodeType):
         fp.write(marshal.dumps(code_obj))
     else:
-        fp.write(xdis.marsh.dumps(code_obj))
+        # The marshaller has to know which Python it writes for.
+        fp.write(xdis.marsh.dumps(code_obj, python_version=version))
     fp.close()
 
 
